@@ -99,7 +99,7 @@ let dump_header (h : M.header) =
 
 let with_inv = ref (try Sys.getenv "EZ_INV" = "1" with Not_found -> false)
 (* the decision predicates of Proofs_Decide.v: present only in the build made from ExtractX.v (lib/build.py swaps this line) *)
-let ls_hook : (M.state -> bool * bool * bool list) option = None
+let ls_hook : (M.state -> bool * bool * bool list * bool) option = None
 let cert_hook : (M.n list -> bool * bool list) option = None
 let with_ls = ref (try Sys.getenv "EZ_LS" = "1" with Not_found -> false)
 let dump_all (s : M.state) =
@@ -119,8 +119,8 @@ let dump_all (s : M.state) =
     pr "T %s\n" (b (M.mt_b s.M.groups))
   end;
   (if !with_ls then match ls_hook with
-    | Some f -> let (a, c, fl) = f s in let b x = if x then "1" else "0" in
-      pr "L %s %s %s\n" (b a) (b c) (String.concat "" (List.map b fl))
+    | Some f -> let (a, c, fl, plain) = f s in let b x = if x then "1" else "0" in
+      pr "L %s %s %s %s\n" (b a) (b c) (String.concat "" (List.map b fl)) (b plain)
     | None -> ());
   pr "E\n"
 
